@@ -61,7 +61,13 @@ def gen_case(rng, exhaustive_dirs=None):
                 keys.append(('neg', rng.choice(num), d))
             else:
                 keys.append(('col', rng.choice(names), d))
+    if rng.random() < 0.15:
+        keys = []                                   # no ORDER BY at all: DISTINCT / LIMIT on the scan order
     case['keys'] = keys
+    # FROM (SELECT all columns FROM #t ORDER BY ...): the outer stable sort keeps the inner order among ties
+    case['inner'] = []
+    if not agg and rng.random() < 0.2:
+        case['inner'] = [(rng.choice(names), rng.choice(['', ' DESC'])) for _ in range(rng.randint(1, 2))]
     case['distinct'] = rng.random() < 0.4
     n = len(rows)
     case['limit'] = rng.choice([None, None, 0, 1, max(n - 1, 0), n, n + 3])
@@ -81,10 +87,15 @@ def statement(case):
             ks.append(f'{k[1]}{k[2]}')
         else:
             ks.append(f'-{k[1]}{k[2]}')
-    s = 'SELECT ' + ('DISTINCT ' if case['distinct'] else '') + tl + ' FROM #t'
+    src = '#t'
+    if case.get('inner'):
+        src = ('(SELECT ' + ', '.join(n for n, _ in case['cols']) + ' FROM #t ORDER BY '
+               + ', '.join(c + d for c, d in case['inner']) + ')')
+    s = 'SELECT ' + ('DISTINCT ' if case['distinct'] else '') + tl + ' FROM ' + src
     if case['agg']:
         s += f' GROUP BY {case["gcol"]}'
-    s += ' ORDER BY ' + ', '.join(ks)
+    if ks:
+        s += ' ORDER BY ' + ', '.join(ks)
     if case['limit'] is not None:
         s += f' LIMIT {case["limit"]}'
     return s
@@ -187,10 +198,19 @@ def model_expr(case):
     q = ('{| q_where := None; q_targets := ' + clist(targets)
          + '; q_group := ' + ('None' if group is None else 'Some ' + clist([f'{i}%nat' for i in group]))
          + '; q_aggs := ' + clist(aggs) + '; q_having := None'
-         + '; q_order := Some ' + clist([cpair(f'{i}%nat', cbool(d)) for i, d in spec])
+         + '; q_order := ' + ('Some ' + clist([cpair(f'{i}%nat', cbool(d)) for i, d in spec]) if case['keys'] else 'None')
          + '; q_vis := ' + clist([f'{i}%nat' for i in range(nvis)])
          + '; q_distinct := ' + cbool(case['distinct']) + '; q_limit := ' + copt(case['limit'], cZ) + ' |}')
-    return f"exec_out {q} {values.rows_to_coq(case['rows'])}"
+    table = values.rows_to_coq(case['rows'])
+    if case.get('inner'):
+        # the subquery materialised by the model: every column, ordered by the inner keys
+        nc = len(names)
+        iq = ('{| q_where := None; q_targets := ' + clist([f'(ECol {i}%nat)' for i in range(nc)])
+              + '; q_group := None; q_aggs := []; q_having := None; q_order := Some '
+              + clist([cpair(f'{idx[c]}%nat', cbool(d == ' DESC')) for c, d in case['inner']])
+              + '; q_vis := ' + clist([f'{i}%nat' for i in range(nc)]) + '; q_distinct := false; q_limit := None |}')
+        table = f'(exec {iq} {table})'
+    return f"exec_out {q} {table}"
 
 
 def model_many(cases, tag='c03'):
@@ -222,6 +242,8 @@ def shrink(case):
         c = dict(case)
         c['keys'] = keys
         return c
+    if not case['keys']:
+        return case
 
     def fails_keys(cands):
         cs = [with_keys(k) for k in cands]
@@ -249,6 +271,10 @@ def exhaustive_cases():
 
 
 CORPUS = [
+    {'cols': [('a', 'int'), ('b', 'int')], 'rows': [(1, 1), (1, 2), (2, 3), (3, 4)], 'agg': False,
+     'targets': [('a', None)], 'keys': [], 'distinct': True, 'limit': 2},
+    {'cols': [('a', 'int'), ('b', 'int')], 'rows': [(1, 1), (1, 5), (2, 3), (1, 4)], 'agg': False, 'inner': [('b', ' DESC')],
+     'targets': [('a', None), ('b', None)], 'keys': [('col', 'a', '')], 'distinct': False, 'limit': None},
     {'cols': [('a', 'int'), ('b', 'int')], 'rows': [(1, 1), (None, 2), (1, 3), (0, 4)], 'agg': False,
      'targets': [('b', None)], 'keys': [('col', 'a', ' DESC'), ('pos', 1, '')], 'distinct': False, 'limit': None},
     {'cols': [('a', 'int'), ('b', 'int')], 'rows': [(1, 1), (1, 1), (2, 1), (1, 1)], 'agg': False,
@@ -285,6 +311,8 @@ def run(tier, rng):
         hist['distinct'] += c['distinct']
         hist['limit'] += c['limit'] is not None
         hist['agg'] += c['agg']
+        hist['no_order_by'] = hist.get('no_order_by', 0) + (not c['keys'])
+        hist['from_ordered_subquery'] = hist.get('from_ordered_subquery', 0) + bool(c.get('inner'))
         for k in c['keys']:
             hist['key_kinds'][k[0]] = hist['key_kinds'].get(k[0], 0) + 1
         if len(c['rows']) >= 2 and i[0] == 0:
@@ -323,6 +351,7 @@ def replay(rec):
     c['rows'] = [tuple(_unjson(v, t) for v, (_, t) in zip(r, c['cols'])) for r in c['rows']]
     c['keys'] = [tuple(k) for k in c['keys']]
     c['targets'] = [tuple(t) for t in c['targets']]
+    c['inner'] = [tuple(t) for t in c.get('inner', [])]
     return run_impl(c) == model_many([c], tag='c03s')[0]
 
 
@@ -334,3 +363,10 @@ def _unjson(v, t):
     if t == 'date':
         return datetime.date.fromisoformat(v)
     return v
+
+
+def generate():
+    """translator tie: regenerate coq/Gen/SrcExec.v (uniquify, nullitemgetter's inner functions, the row loop and the
+    ORDER BY .. LIMIT tail of execute_select) from the source of the imported code (py2mini, src_exec.py)"""
+    from . import gen_src
+    return gen_src.generate('exec')
